@@ -5,6 +5,7 @@ unknown.  The decoder body is interpreted with the known-bits domain for the fla
 so every flag test is decided exactly as the code decides it, and the set of outcomes
 per scenario is compared with the format's decision table.  Nothing is executed: the
 interpreter follows MIR with abstract values."""
+import roles
 import exp
 from exp import Agg, Int, KBits, Opt, TOP
 from facts import callee
@@ -47,6 +48,8 @@ class DecoderRun:
         self.flags = flags          # (b7, b6, b5)
         self.reads = 0
         self.violations = []
+        R = roles.roles(fx)
+        self.point_from_x = {R[g].get('get_point_from_x') for g in ('G1', 'G2')} - {None}
 
     def transfer(self, I, fr, t, c, pth):
         fx = self.fx
@@ -123,7 +126,7 @@ class DecoderRun:
             v = fr.operand(args[0])
             fr.storev(dest, ('residual', v))
             return True
-        if name == 'get_point_from_x':
+        if (c.get('res') or d) in self.point_from_x:
             fr.storev(dest, ('point_from_x', fr.operand(args[0]), fr.operand(args[1])))
             return True
         if name == 'ok_or':
